@@ -285,9 +285,12 @@ def lock_cases(ctx):
     log = []
     real_lock = filelock.FileLock
 
+    lock_paths = []
+
     class RecLock:
         def __init__(self, path, *a, **k):
             self._l = real_lock(path, *a, **k)
+            lock_paths.append(os.path.realpath(path))
 
         held_elsewhere = False      # the other side holds the lock for longer than the time-out
 
@@ -343,18 +346,29 @@ def lock_cases(ctx):
         fake_os = _OS()
         fake_os.path = _Path()
         cmod.os = fake_os
-        for rep in range(4):
-            # rounds 2 and 3: the lock cannot be had within the time-out
-            RecLock.held_elsewhere = rep >= 2
-            sfx = "-timeout" if rep >= 2 else ""
+        for rep in range(6):
+            # rounds 2 and 3: the lock cannot be had within the time-out; rounds 4 and 5: the graph keeps its
+            # scripts in a temporary directory (--usetmp) - the table and its lock stay where the reader looks
+            RecLock.held_elsewhere = rep in (2, 3)
+            sfx = "-timeout" if rep in (2, 3) else ""
+            if rep == 4:
+                import tempfile
+                g._tmp_dir = tempfile.mkdtemp(dir=ctx.scratch)
             del log[:]
+            del lock_paths[:]
             g.write_status(root)
             w = list(log)
+            wl = list(lock_paths)
             del log[:]
+            del lock_paths[:]
             table = Conductor.get_status(root)
             r = list(log)
+            rl = list(lock_paths)
             for who, tr in (("writer" + sfx, w), ("reader" + sfx, r)):
                 mon = []
+                if who.startswith("reader") and wl != rl:
+                    mon.append(("no-torn-read", "writer and reader do not exclude each other: the writer locks %s, "
+                                "the reader %s%s" % (wl, rl, " (graph with a temporary directory)" if rep >= 4 else "")))
                 if who == "reader-timeout" and table:
                     mon.append(("no-torn-read", "the reader could not get the lock but returned a table with "
                                 "%d columns: it read status.csv while a writer may be rewriting it" % len(table)))
